@@ -23,12 +23,15 @@ type c05conn struct {
 	unknown []byte // tags of calls that name an unknown method (never executed)
 }
 
+// c05Sizes: the argument sizes of the calls a scenario issues, in turn.
+var c05Sizes = []int{40, 300, 3, 90, 64}
+
 func c05Issue(f *fixture, base byte, n int) *c05conn { return c05IssueU(f, base, n, -1) }
 
 // c05IssueU: the call at position unknown (if >= 0) names a method that does not exist.
 func c05IssueU(f *fixture, base byte, n int, unknown int) *c05conn {
 	c := &c05conn{f: f, done: make(chan *rpc.Call, 16)}
-	sizes := []int{40, 300, 3, 90, 64}
+	sizes := c05Sizes
 	for i := 0; i < n; i++ {
 		tag := base + byte(i)
 		flags := byte(fYield)
@@ -531,4 +534,16 @@ func c05SmallDone(x *X) {
 
 func init() {
 	register(&Scenario{Prop: "C05", Name: "c05/small-done-channel", Quick: []Bound{{1, 0}}, Thorough: []Bound{{3, 0}}, Body: c05SmallDone, BudgetQ: 15})
+}
+
+// replies of very different sizes (5 KB / 70 KB next to a few bytes: whatever threshold an
+// implementation may treat "large" replies differently at) in one pipelined sequence
+func c05BigSmall(x *X) {
+	c05Sizes = [][]int{{5000, 3, 9000, 40}, {3, 70000, 8, 5000}, {4097, 4096, 4095, 2}}[x.Choose(3)]
+	defer func() { c05Sizes = []int{40, 300, 3, 90, 64} }()
+	c05BodyM(3, sysModes[:1])(x)
+}
+
+func init() {
+	register(&Scenario{Prop: "C05", Name: "c05/big-and-small-replies", Quick: []Bound{{1, 0}}, Thorough: []Bound{{2, 0}}, Body: c05BigSmall, BudgetQ: 20, MaxSteps: 400000})
 }
